@@ -127,6 +127,177 @@ def arr_q_from_model(a, shape):
     return out, exact
 
 
+# --------------------------------------------------------------------------- SOLUTIONS -> corrections (harness mirror)
+# A solution leaf is None (NaN: missing / flagged), 'inf' (an infinite value: invalid) or [re, im] (a number, zero
+# included); K delays are None / 'inf' / a float.  This is the harness-side rendering of the exact part of
+# calc_gain_correction / calc_bandpass_correction / calc_delay_correction (cross-checked against the Coq model
+# Model/ApplycalSol.v, wire 131, for every case): complex_interp is exact at a node, beyond the ends and between
+# equal values; strictly between two different values the result is only known to be a non-zero number (INEXACT).
+INEXACT = 'x'
+GAIN_TYPES = ('G', 'GPHASE', 'GAMP_PHASE')
+NANC = complex(np.nan, np.nan)
+
+
+def leaf_c(v):
+    if v is None:
+        return NANC
+    if isinstance(v, str):
+        return complex(np.inf, 0.0)
+    return complex(v[0], v[1])
+
+
+def leaf_wire(v):
+    if v is None:
+        return []
+    if isinstance(v, str):
+        return [0]
+    return complex_to_wire(np.complex64(complex(v[0], v[1])))
+
+
+def _fin(z):
+    return np.isfinite(z.real) and np.isfinite(z.imag)
+
+
+def py_cinterp(nodes, x, edges_invalid):
+    """nodes: [(x, finite complex)] with increasing x -> complex | NaN | INEXACT."""
+    if not nodes:
+        return NANC
+    if x < nodes[0][0]:
+        return NANC if edges_invalid else nodes[0][1]
+    for (x0, v0), (x1, v1) in zip(nodes, nodes[1:]):
+        if x < x1:
+            return v0 if (x == x0 or v0 == v1) else INEXACT
+    return NANC if (edges_invalid and x > nodes[-1][0]) else nodes[-1][1]
+
+
+def py_recip(v):
+    if isinstance(v, str):
+        return INEXACT
+    if np.isnan(v) or v == 0:
+        return NANC
+    return complex(np.reciprocal(np.complex64(v)))
+
+
+def py_gain(evs, T, targets=None):
+    """evs: [(relative dump, [leaf per channel])] as seen by the data set, in time order -> [T][n_chans] entries."""
+    nch = len(evs[0][1]) if evs else 1
+    out = []
+    for d in range(T):
+        row = []
+        for c in range(nch):
+            nodes = [(e, leaf_c(v[c])) for e, v in evs
+                     if _fin(leaf_c(v[c])) and (targets is None or targets[e] == targets[d])]
+            row.append(py_recip(py_cinterp(nodes, d, False)))
+        out.append(row)
+    return out
+
+
+def py_bandpass(cal_freqs, col, data_freqs):
+    nodes = [(float(f), leaf_c(v)) for f, v in zip(cal_freqs, col) if _fin(leaf_c(v))]
+    return [py_recip(py_cinterp(nodes, float(f), True)) for f in data_freqs]
+
+
+def py_delay(v, data_freqs):
+    if v is None or v == 0:
+        return [complex(1.0, 0.0)] * len(data_freqs)
+    if isinstance(v, str):
+        return [NANC] * len(data_freqs)
+    return [INEXACT] * len(data_freqs)
+
+
+def entries_to_arrays(entries):
+    """list of entries -> (complex64 values with 1 at INEXACT positions, INEXACT mask)."""
+    mask = np.array([isinstance(v, str) for v in entries], bool)
+    vals = np.array([1.0 if isinstance(v, str) else v for v in entries], np.complex64)
+    return vals, mask
+
+
+def wire_entries(entries):
+    """the same list as wire 131 prints it: [] NaN | [[n,d],[n,d]] exact | [1] a non-zero number."""
+    out = []
+    for v in entries:
+        if isinstance(v, str):
+            out.append([1])
+        elif np.isnan(v):
+            out.append([])
+        else:
+            out.append([q_wire(Fraction(float(v.real))), q_wire(Fraction(float(v.imag)))])
+    return out
+
+
+# --------------------------------------------------------------------------- which products a request selects
+# the documented expansion (katdal.open docstring / DataSet.applycal): 'all' = every cal stream, 'default' =
+# l1.K, l1.B, l1.G, l2.GPHASE, a stream = its five product types, a bare type = that type in every stream,
+# <stream>.<type> = itself; lenient (products without solutions are skipped) iff 'all' / 'default' / any bare name
+DOC_TYPES = ['K', 'B', 'G', 'GPHASE', 'GAMP_PHASE']
+DOC_DEFAULT = ['l1.K', 'l1.B', 'l1.G', 'l2.GPHASE']
+
+
+def expand_request(request, streams):
+    """-> (list of <stream>.<type>, lenient)"""
+    if isinstance(request, str):
+        if request == '':
+            items = []
+        elif request == 'all':
+            items = list(streams)
+        elif request == 'default':
+            items = list(DOC_DEFAULT)
+        else:
+            items = [x.strip() for x in request.split(',')]
+    else:
+        items = list(request)
+    lenient = request in ('all', 'default') or any('.' not in x for x in items)
+    out = []
+    for x in items:
+        if '.' in x:
+            out.append(x)
+        elif x in streams:
+            out += [x + '.' + t for t in DOC_TYPES]
+        elif x in DOC_TYPES:
+            out += [s + '.' + x for s in streams]
+        else:
+            raise ValueError(x)
+    return out, lenient
+
+
+def select_expected(names, lenient, available):
+    """the products that must be applied: the requested ones that have corrections for every input, once, in the
+    order of first mention; None = KeyError (strict request naming a product without solutions)."""
+    out = []
+    for n in names:
+        if n in available:
+            if n not in out:
+                out.append(n)
+        elif not lenient:
+            return None
+    return out
+
+
+def check_selection_model(ctx, case, names, lenient, usable, tag):
+    """Model/ApplycalSol.v on the same request (wire 131 op 4): -> (what the MODEL of the loop selects, or None when
+    it raises / no model; names).  The harness-side expectation is cross-checked against the model's SPEC
+    (spec_selected) - a tie of the harness derivation.  usable: {name: [has a sensor for input i]}"""
+    if not ctx.model_ok:
+        return False, None
+    ids = {}
+    for n in names:
+        ids.setdefault(n, len(ids) + 1)
+    back = {v: k for k, v in ids.items()}
+    mo = ctx.model([[131, [4, int(lenient), [[ids[n], [int(b) for b in usable[n]]] for n in names]]]])[0]
+    mine = select_expected(names, lenient, {n for n in names if all(usable[n])})
+    if mo == [-999]:
+        return False, None
+    if not mo:
+        if mine is not None and not lenient and all(all(usable[n]) for n in names):
+            ctx.disagree('route=%s;symptom=harness_selection_differs_from_model' % tag, case, mine, mo,
+                         'model raises on a strict request whose products are all usable', kind='tie')
+        return True, None
+    if mine is not None and mo[1] != [ids[n] for n in mine]:
+        ctx.disagree('route=%s;symptom=harness_selection_differs_from_model' % tag, case, mine,
+                     [back[i] for i in mo[1]], 'products to be selected: harness derivation differs from '
+                     'Model/ApplycalSol.v spec_selected (requested %s)' % names, kind='tie')
+    return True, [back[i] for i in mo[0]]
+
 # --------------------------------------------------------------------------- python rendering of the SPEC
 # (used to pick exact weights, as the fall-back when no model binary exists, and for the invert stream)
 def py_factor(cfg):
@@ -282,13 +453,43 @@ def gen_direct(rng, tier='quick', force=None):
     cfg['weights'] = wts
     cfg['subset'] = [sorted(rng.sample(range(T), rng.randint(1, T))), sorted(rng.sample(range(F), rng.randint(1, F))),
                      sorted(rng.sample(range(B), rng.randint(1, B)))]
+    # the REQUEST handed to calc_correction: the products above plus, in half of the cases, products WITHOUT
+    # correction sensors (for every input, or only for some) at random positions, and repeated names;
+    # lenient (skip_missing_products=True) or strict (a product lacking a sensor is a KeyError)
+    req = [dict(name=p['name'], has=[1] * ninp) for p in prods]
+    skip = int(rng.random() < 0.3)
+    if rng.random() < 0.5:
+        used = {p['name'] for p in prods}
+        unused = [(s, t) for s in streams for t in TYPES if s + '.' + t not in used]
+        for (s_, t_) in rng.sample(unused, min(len(unused), rng.randint(1, 3))):
+            has = [0] * ninp if rng.random() < 0.5 else [int(rng.random() < 0.6) for _ in range(ninp)]
+            used = sorted({i for cp in cps for i in cp})
+            if all(has[i] for i in used):
+                has[rng.choice(used)] = 0          # only the inputs occurring in the corrprods are looked up
+            req.insert(rng.randint(0, len(req)), dict(name=s_ + '.' + t_, has=has))
+        if rng.random() < 0.3:
+            req.insert(rng.randint(0, len(req)), dict(rng.choice(req)))
+        skip = int(rng.random() < 0.85)
+    exp = select_expected([r['name'] for r in req], True, {r['name'] for r in req if all(r['has'])})
+    prods.sort(key=lambda p: exp.index(p['name']))
+    cfg['request'] = req
+    cfg['skip'] = skip
     return cfg
 
 
+def direct_request(cfg):
+    """-> (requested names, lenient, {name: [has a sensor for input i]})"""
+    req = cfg.get('request') or [dict(name=p['name'], has=[1] * len(cfg['labels'])) for p in cfg['prods']]
+    # calc_correction only looks up the inputs that occur in the corrprods
+    used = sorted({i for cp in cfg['cps'] for i in cp})
+    return ([r['name'] for r in req], bool(cfg.get('skip', 0)),
+            {r['name']: [r['has'][i] for i in used] for r in req})
+
+
 # --------------------------------------------------------------------------- model call
-def model_case(cfg):
+def model_case(cfg, only=None):
     prods = [[p['own'], p['kb'], p['cal_freqs'], [[[c_wire(z) for z in g] for g in per] for per in p['corr']]]
-             for p in cfg['prods']]
+             for p in cfg['prods'] if only is None or p['name'] in only]
     return [13, [1, cfg['data_freqs'], prods, len(cfg['labels']), cfg['cps'], cfg['chunks'][0], cfg['chunks'][1],
                  [[[c_wire(z) for z in r] for r in t] for t in cfg['vis']],
                  cfg['weights'], cfg['flags']]]
@@ -330,6 +531,15 @@ def run_direct_impl(cfg):
     from katdal.sensordata import SensorCache
     T, F, B = cfg['T'], len(cfg['data_freqs']), len(cfg['cps'])
     cache = SensorCache({}, 100.0 + 2.0 * np.arange(T), 2.0)
+    names, skip, usable = direct_request(cfg)
+    has_all = {r['name']: r['has'] for r in cfg.get('request') or []}
+    for n in names:
+        # a product that is not applicable: correction sensors exist for some of the inputs only (or for none)
+        if not all(usable[n]):
+            for lab, h in zip(cfg['labels'], has_all[n]):
+                if h:
+                    cache['Calibration/Corrections/%s/%s/%s' % (tuple(n.split('.')) + (lab,))] = \
+                        np.ones((T, 1), np.complex64)
     for p in cfg['prods']:
         s, t = p['name'].split('.')
         for lab, per in zip(cfg['labels'], p['corr']):
@@ -345,20 +555,25 @@ def run_direct_impl(cfg):
     corrprods = [(cfg['labels'][a], cfg['labels'][b]) for a, b in cfg['cps']]
     data_freqs = np.array([float(Fraction(*f)) for f in cfg['data_freqs']])
     cal_freqs = {p['stream']: np.array([float(Fraction(*f)) for f in p['cal_freqs']]) for p in cfg['prods']}
+    for n in names:
+        cal_freqs.setdefault(n.split('.')[0], data_freqs)
     vis = np.array([[[c_to_py(z) for z in r] for r in t] for t in cfg['vis']], np.complex64)
     wts = np.array([[[w[0] / 2.0 ** w[1] for w in r] for r in t] for t in cfg['weights']], np.float32)
     fls = np.array(cfg['flags'], np.uint8)
     out = {}
     for key, chunks in (('main', cfg['chunks']), ('second', cfg['chunks2'] + [[B]])):
         chunks = tuple(tuple(c) for c in chunks)
-        final, corr = calc_correction(chunks, cache, corrprods, [p['name'] for p in cfg['prods']], data_freqs,
-                                      cal_freqs)
-        assert final == [p['name'] for p in cfg['prods']], final
+        final, corr = calc_correction(chunks, cache, corrprods, list(names), data_freqs, cal_freqs,
+                                      **(dict(skip_missing_products=True) if skip else {}))
+        out['final'] = list(final)
         res = {}
         for nm, kern, arr in (('vis', apply_vis_correction, vis), ('weights', apply_weights_correction, wts),
                               ('flags', apply_flags_correction, fls)):
             darr = da.from_array(arr, chunks=chunks)
-            res[nm] = da.core.elemwise(kern, darr, corr, dtype=arr.dtype)
+            # no product applicable: VisibilityDataV4 serves the stored data
+            res[nm] = da.core.elemwise(kern, darr, corr, dtype=arr.dtype) if corr is not None else darr
+        if corr is None:
+            corr = da.ones((T, F, B), chunks=chunks, dtype=np.complex64)
         if key == 'main':
             out['corr'] = corr.compute(scheduler='synchronous')
             for nm in res:
@@ -431,16 +646,44 @@ def nontrivial(cfg, m):
 
 def run_direct(ctx, cfg, mo):
     m = model_arrays(cfg, mo) if mo is not None else fallback_arrays(cfg)
+    names, skip, usable = direct_request(cfg)
+    want = select_expected(names, skip, {n for n in names if all(usable[n])})
+    has_model, msel = check_selection_model(ctx, cfg, names, skip, usable, 'direct')
+    shape = 'lenient=%d;missing=%s' % (skip, 'none' if all(all(usable[n]) for n in names) else
+                                       ('last' if all(all(usable[n]) for n in names[:len(want or names)]) else 'before_present'))
     try:
         impl = run_direct_impl(cfg)
     except Exception as e:
+        if want is None and isinstance(e, KeyError):
+            ctx.traces_validated += 1
+            ctx.count('route=direct;strict_request_missing_product=KeyError')
+            return
         if m['wf']:
-            ctx.disagree('route=direct;symptom=raises;exc=%s' % type(e).__name__, cfg, repr(e)[:300], 'a result',
-                         'calc_correction / kernels raised on a well-formed configuration')
+            ctx.disagree('route=direct;symptom=raises;exc=%s;%s' % (type(e).__name__, shape), cfg, repr(e)[:300],
+                         'a result', 'calc_correction / kernels raised on a well-formed configuration')
         return
     if not m['wf']:
         return
-    compare(ctx, cfg, impl, m, 'direct')
+    if want is None:
+        ctx.disagree('route=direct;obs=products;symptom=strict_request_did_not_raise', cfg, impl['final'], 'KeyError',
+                     'calc_correction(skip_missing_products=False) returned although a requested product lacks a '
+                     'correction sensor')
+        return
+    if impl['final'] != want:
+        ctx.disagree('route=direct;obs=products;vs=spec;symptom=%s;%s'
+                     % ('products_dropped' if set(impl['final']) < set(want) else 'wrong_products', shape), cfg,
+                     impl['final'], want, 'calc_correction applies %s, the request %s with usable products %s calls '
+                     'for %s' % (impl['final'], names, sorted(n for n in names if all(usable[n])), want))
+    if has_model and msel is not None and impl['final'] != msel:
+        ctx.disagree('route=direct;obs=products;vs=model;symptom=wrong_products;%s' % shape, cfg, impl['final'], msel,
+                     'products applied differ from the model of the loop', kind='tie')
+    if has_model and msel is not None and msel != want and mo is not None:
+        # the (faithful) model of the loop selects other products than the spec: tie on those, property on the spec's
+        mt = model_arrays(cfg, ctx.model([model_case(cfg, only=set(msel))])[0])
+        compare(ctx, cfg, impl, mt, 'direct', sides=('model',))
+        compare(ctx, cfg, impl, m, 'direct', sides=('spec',))
+    else:
+        compare(ctx, cfg, impl, m, 'direct')
     # chunk independence / loaded subset on the implementation itself
     ts, cs, bs = cfg['subset']
     ix = np.ix_(ts, cs, bs)
@@ -457,6 +700,7 @@ def run_direct(ctx, cfg, mo):
                               chunks=cfg['chunks'], nan_factors=int(np.isnan(m['corr']).sum())))
     ctx.count('route=direct')
     ctx.count('products=%d' % len(cfg['prods']))
+    ctx.count('direct_request:' + shape)
     for k in m.get('maps', []):
         ctx.count('map=%s' % {0: 'broadcast', 1: 'direct', 2: 'nearest'}[k])
     ctx.count('nan_factor=%s' % bool(np.isnan(m['corr']).any()))
@@ -474,18 +718,60 @@ def _pow2(e):
     return [2.0 ** e, 0.0]
 
 
+def gen_request(rng, avail, force=None):
+    """how the user asks for calibration: strict (fully qualified names of products that exist), lenient ('all',
+    'default', the stream, bare product types - products without solutions listed before / between / after the
+    present ones, repeated names, qualified names mixed in), or strict naming a product without solutions."""
+    missing = [t for t in DOC_TYPES if t not in avail]
+    kind = force or rng.choice(['strict'] * 6 + ['group'] * 3 + ['types'] * 7 + ['mixed'] * 2 + ['strict_missing'])
+    if kind == 'strict_missing' and not missing:
+        kind = 'types'
+    if kind == 'strict':
+        req = ['l1.' + t for t in avail]
+        rng.shuffle(req)
+    elif kind == 'group':
+        return rng.choice(['all', 'default', 'l1']), kind
+    elif kind == 'types':
+        req = rng.sample(DOC_TYPES, rng.randint(1, 5))
+        if missing and rng.random() < 0.6:
+            # a type without solutions listed BEFORE one that has them
+            m, a = rng.choice(missing), rng.choice(avail)
+            req = [x for x in req if x not in (m, a)]
+            k = rng.randint(0, len(req))
+            req.insert(k, m)
+            req.insert(rng.randint(k + 1, len(req)), a)
+        if rng.random() < 0.2:
+            req.insert(rng.randint(0, len(req)), rng.choice(req))
+    elif kind == 'mixed':
+        req = rng.sample(DOC_TYPES, rng.randint(1, 3)) + ['l1.' + t for t in rng.sample(avail, rng.randint(1, len(avail)))]
+        if rng.random() < 0.3:
+            req.append('l1')
+        rng.shuffle(req)
+    else:
+        req = ['l1.' + t for t in avail] + ['l1.' + rng.choice(missing)]
+        rng.shuffle(req)
+    return (','.join(req) if rng.random() < 0.5 else req), kind
+
+
 def gen_v4(rng, tier='quick', force=None):
-    """Exact stream: real positive power-of-two solutions (G constant in time per input; B constant over the band
-    per input and solution time; NaN events / inputs / band edges; K zero or NaN), so every correction is an exact
-    power of two, 1 or NaN and can be derived from the SOLUTIONS by the harness (expected_corrections).
-    B may be a multi-part ("split cal") product whose parts have solutions at different times; the data set may be
-    opened with preselect={'channels': ..., 'dumps': ...}."""
+    """Exact stream: real positive power-of-two solutions (gain types constant in time per input; B constant over
+    the band per input and solution time; NaN / infinite events / inputs / band edges; ZERO solutions: dead inputs,
+    dead channels, a zero at one solution time; K zero, NaN or infinite), so that every correction is an exact power
+    of two, 1 or NaN (or, at marked positions, only known to be a non-zero number) and can be derived from the
+    SOLUTIONS by the harness (expected_corrections).  B may be a multi-part ("split cal") product whose parts have
+    solutions at different times; the data set may be opened with preselect={'channels': ..., 'dumps': ...}; the
+    request may be lenient and name products without solutions anywhere in the list."""
     force = force or {}
     n_ant = rng.randint(2, 3)
     ants = ['m%03d' % a for a in range(n_ant)]
     types = rng.sample(['G', 'B', 'K'], rng.randint(1, 3))
+    for t in ('GPHASE', 'GAMP_PHASE'):
+        if rng.random() < 0.25:
+            types.append(t)
     if force.get('parts') and 'B' not in types:
         types.append('B')
+    if force.get('request') in ('types', 'group') and len(types) == 5:
+        types.remove(rng.choice(['B', 'K', 'GPHASE']))          # something must be missing
     n_parts = 1
     if 'B' in types and (force.get('parts') or rng.random() < 0.5):
         n_parts = rng.choice([2, 2, 3])
@@ -511,6 +797,8 @@ def gen_v4(rng, tier='quick', force=None):
     products = {}
     parts = {}
     nan_input = (rng.randrange(2), rng.randrange(n_ant)) if rng.random() < 0.4 else None
+    # zero solutions (force 'zero': in every product that can carry one)
+    p_zero = 1.0 if force.get('zero') else rng.choice([0, 0, 0.5, 1.0])
     first_hold = []                       # first solution dump of every product held from its first solution on
     for t in types:
         exps = [[rng.randint(-3, 3) for _ in range(n_ant)] for _ in range(2)]
@@ -518,24 +806,37 @@ def gen_v4(rng, tier='quick', force=None):
         g_with_chans = rng.random() < 0.4
         n_ev = rng.randint(2 if (t == 'B' and n_parts > 1) else 1, min(4 if t == 'B' else 3, T + 1))
         evs = sorted(rng.sample(range(-1, T), n_ev))
+        # a dead input (every solution exactly zero), a dead cal channel of one input, a zero at ONE solution time
+        inputs_pa = [(p, a) for p in range(2) for a in range(n_ant)]
+        dead_input = rng.choice(inputs_pa) if rng.random() < p_zero * 0.6 else None
+        dead_chan = (rng.choice(inputs_pa), rng.randrange(n_cal)) if rng.random() < p_zero * 0.6 else None
+        zero_once = (rng.choice(inputs_pa), rng.choice(evs)) if rng.random() < p_zero * 0.3 else None
+        if force.get('zero') and dead_input is None and dead_chan is None:
+            dead_input = rng.choice(inputs_pa)
         events = []
         for dump in evs:
+            def bad():
+                return 'inf' if rng.random() < 0.3 else None
             if t == 'K':
-                arr = [[(None if rng.random() < 0.2 else 0.0) for _ in range(n_ant)] for _ in range(2)]
-            elif t == 'G' and not g_with_chans:
-                arr = [[None if ((p, a) == nan_input or rng.random() < 0.1) else _pow2(exps[p][a])
+                arr = [[(bad() if rng.random() < 0.2 else 0.0) for _ in range(n_ant)] for _ in range(2)]
+            elif t in GAIN_TYPES and not g_with_chans:
+                arr = [[bad() if ((p, a) == nan_input or rng.random() < 0.1) else
+                        ([0.0, 0.0] if ((p, a) == dead_input or zero_once == ((p, a), dump)) else _pow2(exps[p][a]))
                         for a in range(n_ant)] for p in range(2)]
-            elif t == 'G':
-                arr = [[[None if (p, a) == nan_input else _pow2(exps[p][a] + cexp[k])
+            elif t in GAIN_TYPES:
+                arr = [[[bad() if (p, a) == nan_input else
+                         ([0.0, 0.0] if ((p, a) == dead_input or dead_chan == ((p, a), k)) else
+                          _pow2(exps[p][a] + cexp[k]))
                          for a in range(n_ant)] for p in range(2)] for k in range(n_cal)]
             else:
                 # B: one value per input and SOLUTION TIME over the whole band (every part), NaN at band edges,
-                # whole inputs, or one input at one solution time
+                # whole inputs, or one input at one solution time; zero for a dead input / dead channels
                 lo, hi = rng.randint(0, 1), n_cal - rng.randint(0, 1)
                 delta = rng.randint(-1, 1)
                 dead = {(p, a) for p in range(2) for a in range(n_ant) if rng.random() < 0.08}
-                arr = [[[None if ((p, a) == nan_input or (p, a) in dead or not lo <= k < hi)
-                         else _pow2(exps[p][a] + delta) for a in range(n_ant)] for p in range(2)] for k in range(n_cal)]
+                arr = [[[bad() if ((p, a) == nan_input or (p, a) in dead or not lo <= k < hi) else
+                         ([0.0, 0.0] if ((p, a) == dead_input or dead_chan == ((p, a), k)) else
+                          _pow2(exps[p][a] + delta)) for a in range(n_ant)] for p in range(2)] for k in range(n_cal)]
             events.append([dump, arr])
         if t == 'B' and n_parts > 1:
             per = n_cal // n_parts
@@ -562,14 +863,17 @@ def gen_v4(rng, tier='quick', force=None):
             first_hold.append(min(e for keep in keeps for e in keep))
         else:
             products[t] = events
-            if t != 'G':
+            if t not in GAIN_TYPES:
                 first_hold.append(evs[0])
     cal = dict(antlist=antlist, pol_ordering=pols, center_freq=cf + shift * chan_w, bandwidth=cal_bw, n_chans=n_cal,
                products=products)
     if parts:
         cal['parts'] = parts
-    applycal = ['l1.' + t for t in types]
-    rng.shuffle(applycal)
+    applycal, req_kind = gen_request(rng, types, force.get('request'))
+    # one to three targets (self-cal type gains are interpolated per target)
+    tg = [[0, 0]]
+    for d in sorted(rng.sample(range(1, T), rng.choice([0, 0, 1, 2]) if T > 2 else 0)):
+        tg.append([d, rng.choice([k for k in range(3) if k != tg[-1][1]])])
     sel = {}
     if rng.random() < 0.7:
         a = rng.randrange(T)
@@ -597,10 +901,26 @@ def gen_v4(rng, tier='quick', force=None):
             b = rng.randint(a + 1, T)
             if all(e < b for e in first_hold):
                 pre['dumps'] = [a, b]
-    return dict(route='v4', T=T, F=F, ants=ants, chan_w=chan_w, cf=cf, cal=cal, applycal=applycal, select=sel,
+    return dict(route='v4', T=T, F=F, ants=ants, chan_w=chan_w, cf=cf, cal=cal, applycal=applycal, request=req_kind,
+                targets=tg, select=sel,
                 preselect=pre, seed=rng.randrange(10 ** 6), shuffle_bls=rng.random() < 0.5,
                 chunks=[compositions(rng, T), compositions(rng, F)],
                 index=[rng.choice([None, 1, 2]), rng.choice([None, 1, 2])])
+
+
+def available_products(cal):
+    """the <stream>.<type> products of the (single, 'l1') cal stream that have solutions in telstate."""
+    out = set()
+    for key in cal['products']:
+        t = key.rstrip('0123456789') if key.rstrip('0123456789') in cal.get('parts', {}) else key
+        out.add('l1.' + t)
+    return out
+
+
+def expected_products(vcfg):
+    """-> (expanded request, lenient, the products that must be applied | None for KeyError)"""
+    names, lenient = expand_request(vcfg['applycal'], ['l1'])
+    return names, lenient, select_expected(names, lenient, available_products(vcfg['cal']))
 
 
 # --------------------------------------------------------------------------- corrections expected from the SOLUTIONS
@@ -645,65 +965,75 @@ def stitched_events(cal, t):
     return [[e, [row for p in part for row in p.get(e, missing)]] for e in times]
 
 
-def expected_corrections(vcfg, inputs, data_freqs, dumps):
+def expected_corrections(vcfg, inputs, data_freqs, dumps, names=None, targets=None, ctx=None):
+    """-> ({type: [input][dump] -> complex64 vector}, {type: [input][dump] -> bool vector}): the corrections the
+    SOLUTIONS call for and the positions at which only "a non-zero number" is known (there the vector holds 1).
+    targets: target index per loaded dump (self-cal type gains are interpolated per target).  With ctx the
+    derivation is cross-checked against Model/ApplycalSol.v (wire 131) for every input."""
     from fixtures import c13cal
     cal = vcfg['cal']
     n = dumps[1] - dumps[0]
-    F = len(data_freqs)
     cal_freqs = c13cal.cal_channel_freqs(cal)
     index = {ant + pol: (p_i, a_i) for p_i, pol in enumerate(cal['pol_ordering'])
              for a_i, ant in enumerate(cal['antlist'])}
-    nan = np.complex64(complex(np.nan, np.nan))
-
-    def inv(v):
-        return nan if v is None else np.complex64(1.0 / v[0])
-    out = {}
-    for name in vcfg['applycal']:
+    names = expected_products(vcfg)[2] if names is None else names
+    out, masks, cases, mine = {}, {}, [], []
+    fw = [q_wire(Fraction(float(f))) for f in data_freqs]
+    cw = [q_wire(Fraction(float(f))) for f in cal_freqs]
+    for name in names or []:
         t = name.split('.')[1]
-        kept = _kept_events(stitched_events(cal, t), dumps)
-        per_input = []
+        kept = sorted(_kept_events(stitched_events(cal, t), dumps).items())
+        per_input, per_mask = [], []
         for inp in inputs:
             p_i, a_i = index[inp]
-            if t == 'K':
-                per_input.append([np.ones(F, np.complex64)] * n)
-            elif t == 'G':
-                vals = list(kept.values())
-                if not vals:
-                    g = np.array([nan])
-                elif _shape_of(vals[0]) == 2:
-                    ok = [v[p_i][a_i] for v in vals if v[p_i][a_i] is not None]
-                    g = np.array([inv(ok[0]) if ok else nan])
-                else:
-                    g = []
-                    for k in range(len(vals[0])):
-                        ok = [v[k][p_i][a_i] for v in vals if v[k][p_i][a_i] is not None]
-                        g.append(inv(ok[0]) if ok else nan)
-                    g = np.array(g)
-                per_input.append([g] * n)
+            if t in GAIN_TYPES:
+                evs = [(e, [v[p_i][a_i]] if _shape_of(v) == 2 else [row[p_i][a_i] for row in v]) for e, v in kept]
+                tg = None if (t == 'G' or targets is None) else list(targets)
+                rows = py_gain(evs, n, tg)
+                cases.append([131, [1, n, [] if tg is None else [int(x) + 1 for x in tg],
+                                    [[q_wire(e), [leaf_wire(x) for x in v]] for e, v in evs]]])
+                mine.append([wire_entries(r) for r in rows])
             else:
-                per = []
+                rows = []
+                segs = {}
                 for d in range(n):
-                    v = _in_force(kept, d, True)
-                    col = [v[k][p_i][a_i] for k in range(len(v))]
-                    valid = [k for k in range(len(col)) if col[k] is not None]
-                    g = np.full(F, nan)
-                    if valid:
-                        lo, hi = cal_freqs[valid[0]], cal_freqs[valid[-1]]
-                        g[(data_freqs >= lo) & (data_freqs <= hi)] = inv(col[valid[0]])
-                    per.append(g)
-                per_input.append(per)
+                    v = _in_force(dict(kept), d, True)
+                    key = id(v)
+                    if key not in segs:
+                        if t == 'K':
+                            segs[key] = py_delay(v[p_i][a_i], data_freqs)
+                            cases.append([131, [3, leaf_wire(None if v[p_i][a_i] is None else
+                                                             (v[p_i][a_i] if isinstance(v[p_i][a_i], str)
+                                                              else [v[p_i][a_i], 0.0])), fw]])
+                        else:
+                            col = [v[k][p_i][a_i] for k in range(len(v))]
+                            segs[key] = py_bandpass(cal_freqs, col, data_freqs)
+                            cases.append([131, [2, cw, fw, [leaf_wire(x) for x in col]]])
+                        mine.append(wire_entries(segs[key]))
+                    rows.append(segs[key])
+            arrs = [entries_to_arrays(r) for r in rows]
+            per_input.append([a[0] for a in arrs])
+            per_mask.append([a[1] for a in arrs])
         out[t] = per_input
-    return out
+        masks[t] = per_mask
+    if ctx is not None and ctx.model_ok and cases:
+        for k, mo in enumerate(ctx.model(cases)):
+            if mo != mine[k]:
+                ctx.disagree('route=v4;symptom=harness_corrections_differ_from_model', vcfg, mine[k], mo,
+                             'corrections derived from the solutions: harness derivation differs from '
+                             'Model/ApplycalSol.v (wire 131 op %d)' % cases[k][1][0], kind='tie')
+                break
+    return out, masks
 
 
-def check_harness_spec(ctx, vcfg, dumps_list):
+def check_harness_spec(ctx, vcfg, dumps_list, names=None):
     """The two pieces of the harness-side derivation that have a Coq counterpart are cross-checked against it:
     the stitched solution list of a multi-part product (Model/CalInterp.v `stitch`, the model proved under C14)
     and the solutions seen by a data set holding dumps [a, b) (Model/Applycal.v `seen`)."""
     if not ctx.model_ok:
         return
     cal = vcfg['cal']
-    for name in vcfg['applycal']:
+    for name in (expected_products(vcfg)[2] or []) if names is None else names:
         t = name.split('.')[1]
         st = stitched_events(cal, t)
         for a, b in dumps_list:
@@ -721,7 +1051,7 @@ def check_harness_spec(ctx, vcfg, dumps_list):
         for p_i in range(n_pol):
             for a_i in range(n_ant):
                 def opv(v):
-                    return [] if v is None else [[q_wire(Fraction(v[0])), [0, 1]]]
+                    return [] if (v is None or isinstance(v, str)) else [[q_wire(Fraction(v[0])), [0, 1]]]
                 parts = [[[q_wire(e), [opv(row[p_i][a_i]) for row in arr]]
                           for e, arr in cal['products'].get('%s%d' % (t, q), [])] for q in range(n_parts)]
                 cases.append([14, [6, parts]])
@@ -802,10 +1132,13 @@ def _build(vcfg, arrays=None):
         import random
         random.Random(vcfg['seed']).shuffle(bls)
     ch = (tuple(vcfg['chunks'][0]), tuple(vcfg['chunks'][1]), (len(bls),))
-    x = v4.build_v4(T=T, F=F, ants=ants, seed=vcfg['seed'], bandwidth=F * vcfg['chan_w'], center_freq=vcfg['cf'],
+    tgs = [v4.TARGET_A, v4.TARGET_B, v4.TARGET_C]
+    kw = dict(targets=tuple((d, tgs[k]) for d, k in vcfg['targets'])) if vcfg.get('targets') else {}
+    applycal = vcfg['applycal'] if isinstance(vcfg['applycal'], str) else list(vcfg['applycal'])
+    x = v4.build_v4(**kw, T=T, F=F, ants=ants, seed=vcfg['seed'], bandwidth=F * vcfg['chan_w'], center_freq=vcfg['cf'],
                     bls_ordering=bls, arrays=arrays, chunks={'correlator_data': ch},
                     telstate_hook=c13cal.cal_hook(vcfg['cal']), archived_override=['sdp_l0', 'cal'],
-                    open_kwargs=dict(applycal=list(vcfg['applycal'])), tmp=v4.scratch_dir('c13'))
+                    open_kwargs=dict(applycal=applycal), tmp=v4.scratch_dir('c13'))
     return x, bls
 
 
@@ -855,22 +1188,70 @@ def _restrict(m, ix, extra=()):
     return out
 
 
-def _same_corrections(a, b):
-    """[input][dump] -> vectors: equal shapes and values (NaN == NaN)?  -> None or (input, dump, what)."""
+def _same_corrections(a, b, bmask=None):
+    """[input][dump] -> vectors: equal shapes and values (NaN == NaN)?  -> None or (input, dump, what).
+    bmask: positions of b at which only "a non-zero number" is expected."""
     for i, (pa, pb) in enumerate(zip(a, b)):
         for t, (ga, gb) in enumerate(zip(pa, pb)):
             ga, gb = np.atleast_1d(ga), np.atleast_1d(gb)
             if ga.shape != gb.shape:
                 return i, t, 'shape'
             eq = same_c(ga.astype(np.complex128), gb.astype(np.complex128))
+            if bmask is not None:
+                mk = np.atleast_1d(bmask[i][t])
+                ok = np.isfinite(ga.real) & np.isfinite(ga.imag) & (ga != 0)
+                if (mk & ~ok).any():
+                    return i, t, ('invalid_where_solution_present' if np.isnan(ga[mk & ~ok][0])
+                                  else 'zero_or_infinite_correction')
+                eq = eq | mk
             if not eq.all():
                 c = int(np.argwhere(~eq)[0][0])
                 if np.isnan(gb[c]) and not np.isnan(ga[c]):
-                    return i, t, 'finite_where_solution_missing'
+                    return i, t, ('zero_correction_where_solution_zero' if ga[c] == 0
+                                  else 'finite_where_solution_missing')
                 if np.isnan(ga[c]):
                     return i, t, 'invalid_where_solution_present'
                 return i, t, 'wrong_value'
     return None
+
+
+def _same_shapes(a, b):
+    return len(a) == len(b) and all(len(pa) == len(pb) and all(np.atleast_1d(x).shape == np.atleast_1d(y).shape
+                                                               for x, y in zip(pa, pb)) for pa, pb in zip(a, b))
+
+
+def _fill_inexact(want, masks, read):
+    """the spec needs a number at the positions where the solutions only say "a non-zero number": katdal's own."""
+    out = {}
+    for t, per_input in want.items():
+        out[t] = []
+        for i, per in enumerate(per_input):
+            row = []
+            for d, g in enumerate(per):
+                mk = masks[t][i][d]
+                if mk.any() and t in read and np.atleast_1d(read[t][i][d]).shape == g.shape:
+                    g = np.where(mk, np.atleast_1d(read[t][i][d]), g)
+                row.append(g)
+            out[t].append(row)
+    return out
+
+
+def _spec_on(ctx, cfg, want, masks, read, names, cal_freqs):
+    """model arrays of the SPEC evaluated on the corrections the solutions call for; positions whose factor depends
+    on a correction that is only known to be a non-zero number are excluded from the value comparison (their
+    flags are still compared: the factor is a number there)."""
+    filled = _fill_inexact(want, masks, read)
+    scfg = dict(cfg, prods=_prods_from(filled, names, cal_freqs))
+    ms = _model(ctx, scfg)
+    if any(mk.any() for t in masks for per in masks[t] for mk in per):
+        nanned = {t: [[np.where(masks[t][i][d], np.complex64(NANC), g) for d, g in enumerate(per)]
+                      for i, per in enumerate(per_input)] for t, per_input in filled.items()}
+        mt = _model(ctx, dict(cfg, prods=_prods_from(nanned, names, cal_freqs)))
+        tainted = np.isnan(mt['corr']) & ~np.isnan(ms['corr'])
+        ms['vis_exact'] = ms['vis_exact'] & ~tainted
+        ms['w_exact'] = ms['w_exact'] & ~tainted
+        ms['tainted'] = int(tainted.sum())
+    return scfg, ms
 
 
 def run_v4(ctx, vcfg):
@@ -882,23 +1263,40 @@ def run_v4(ctx, vcfg):
     n_parts = max([1] + list(cal.get('parts', {}).values()))
     pre = dict(vcfg.get('preselect') or {})
     shape_tag = ';parts=%d' % n_parts
+    req_names, lenient, want_names = expected_products(vcfg)
+    avail = available_products(cal)
+    req_kind = vcfg.get('request', 'strict')
+    # where do the requested products without solutions stand?
+    miss = [k for k, nm in enumerate(req_names) if nm not in avail]
+    have = [k for k, nm in enumerate(req_names) if nm in avail]
+    req_tag = 'request=%s;missing=%s' % (req_kind, 'none' if not miss else
+                                         ('before_present' if have and min(miss) < max(have) else 'last'))
     try:
         try:
-            x, bls = _build(vcfg)
+            try:
+                x, bls = _build(vcfg)
+            except KeyError as e:
+                if want_names is None:
+                    ctx.traces_validated += 1
+                    ctx.count('v4_strict_request_missing_product=KeyError')
+                    return
+                raise e
+            if want_names is None:
+                ctx.disagree('route=v4;obs=products;symptom=strict_request_did_not_raise', vcfg,
+                             list(x.d.applycal_products), 'KeyError',
+                             'a fully qualified request naming a product without solutions was accepted')
+                return
             d = x.d
             raw = v4.reopen(x)
             T, F = vcfg['T'], vcfg['F']
             inputs = sorted({i for cp in bls for i in cp})
             cal_freqs = c13cal.cal_channel_freqs(cal)
-            read = {name.split('.')[1]: _read_corrections(d, name.split('.')[1], inputs, T)
-                    for name in d.applycal_products}
-            prods = _prods_from(read, list(d.applycal_products), cal_freqs)
-            if list(d.applycal_products) != list(vcfg['applycal']):
-                ctx.disagree('route=v4;symptom=products_dropped', vcfg, list(d.applycal_products), vcfg['applycal'],
-                             'applycal products differ from the requested ones')
-                return
+            got_names = list(d.applycal_products)
+            read = {name.split('.')[1]: _read_corrections(d, name.split('.')[1], inputs, T) for name in got_names}
+            prods = _prods_from(read, got_names, cal_freqs)
             vis0, w0, f0 = raw.vis[:], raw.weights[:], raw.raw_flags[:]
             freqs = np.array(raw.channel_freqs)
+            targets = [int(v) for v in raw.sensor['Observation/target_index']]
             cfg = _direct_cfg(inputs, bls, freqs, prods, vcfg['chunks'], vis0, w0, f0)
             full = dict(vis=d.vis[:], weights=d.weights[:], flags=d.raw_flags[:])
             sel = dict(vcfg.get('select', {}))
@@ -919,37 +1317,75 @@ def run_v4(ctx, vcfg):
             ctx.disagree('route=v4;symptom=raises;exc=%s' % type(e).__name__ + shape_tag, vcfg, repr(e)[:300],
                          'a result', 'opening / reading a data set with applycal raised')
             return
-        # (a) tie: calc_correction + kernels + selection on the corrections katdal derived
+        # the products katdal selected against the documented expansion of the request
+        usable = {nm: [int(nm in avail)] * len(inputs) for nm in req_names}
+        has_model, msel = check_selection_model(ctx, vcfg, req_names, lenient, usable, 'v4')
+        if got_names != want_names:
+            ctx.disagree('route=v4;obs=products;symptom=%s;%s'
+                         % ('products_dropped' if set(got_names) < set(want_names) else 'wrong_products', req_tag),
+                         vcfg, got_names, want_names,
+                         'applycal=%r expands to %s of which %s have solutions: %s must be applied, katdal applies %s'
+                         % (vcfg['applycal'], req_names, sorted(avail), want_names, got_names))
+        if has_model and msel is not None and got_names != msel:
+            ctx.disagree('route=v4;obs=products;vs=model;symptom=wrong_products;%s' % req_tag, vcfg, got_names, msel,
+                         'applycal_products differ from the model of the loop over the requested products',
+                         kind='tie')
+        want, wmask = expected_corrections(vcfg, inputs, freqs, (0, T), want_names, targets, ctx)
+        # (a) tie: calc_correction + kernels + selection on the corrections katdal derived for the products it selected
+        # (positions whose factor involves a correction the solutions only determine as "a non-zero number" carry
+        # non-dyadic values: excluded from the value comparison, flags are compared)
         m = _model(ctx, cfg)
+        rmask = {t: wmask[t] for t in read if t in wmask and _same_shapes(read[t], wmask[t])}
+        if any(mk.any() for t in rmask for per in rmask[t] for mk in per):
+            nanned = {t: ([[np.where(rmask[t][i][d_], np.complex64(NANC), g) for d_, g in enumerate(per)]
+                           for i, per in enumerate(read[t])] if t in rmask else read[t]) for t in read}
+            mt = _model(ctx, dict(cfg, prods=_prods_from(nanned, got_names, cal_freqs)))
+            tainted = np.isnan(mt['corr']) & ~np.isnan(m['corr'])
+            m['vis_exact'] = m['vis_exact'] & ~tainted
+            m['w_exact'] = m['w_exact'] & ~tainted
         case = cfg_with(vcfg, cfg)
         compare(ctx, case, impl, _restrict(m, ix, [(s1, s2)]), 'v4', sides=('model',))
         if not np.array_equal(boolflags, impl['flags'] != 0):
             ctx.disagree('route=v4;obs=boolflags', vcfg, None, None, 'flags differ from raw_flags != 0')
-        # (b) property, end to end: the spec evaluated on the corrections the SOLUTIONS call for
-        check_harness_spec(ctx, vcfg, [(0, T)] + ([tuple(pre['dumps'])] if 'dumps' in pre else []))
-        want = expected_corrections(vcfg, inputs, freqs, (0, T))
+        # (b) property, end to end: the spec evaluated on the corrections the SOLUTIONS call for, over the products
+        # the REQUEST calls for
+        check_harness_spec(ctx, vcfg, [(0, T)] + ([tuple(pre['dumps'])] if 'dumps' in pre else []), want_names)
         for ptype in want:
-            bad = _same_corrections(read[ptype], want[ptype])
+            if ptype not in read:
+                continue
+            bad = _same_corrections(read[ptype], want[ptype], wmask[ptype])
             if bad is not None:
                 ctx.disagree('route=v4;obs=corrections_from_solutions;type=%s;symptom=%s' % (ptype, bad[2]) + shape_tag,
                              vcfg, dict(input=inputs[bad[0]], dump=bad[1], value=str(read[ptype][bad[0]][bad[1]])),
                              dict(value=str(want[ptype][bad[0]][bad[1]])),
                              'correction of %s for %s at dump %d differs from what the solutions call for'
                              % (ptype, inputs[bad[0]], bad[1]))
-        scfg = dict(cfg, prods=_prods_from(want, vcfg['applycal'], cal_freqs))
-        ms = _model(ctx, scfg)
+        scfg, ms = _spec_on(ctx, cfg, want, wmask, read, want_names, cal_freqs)
         compare(ctx, cfg_with(vcfg, scfg), impl, _restrict(ms, ix, [(s1, s2)]), 'v4', sides=('spec',),
-                spec_name='spec_from_solutions', tag=shape_tag)
+                spec_name='spec_from_solutions', tag=shape_tag + ';' + req_tag)
         # (c) the result does not depend on which subset is LOADED: the same store opened with preselect
         if pre:
-            run_preselected(ctx, vcfg, x, inputs, bls, cal_freqs, freqs, (vis0, w0, f0), full, want, shape_tag)
+            run_preselected(ctx, vcfg, x, inputs, bls, cal_freqs, freqs, (vis0, w0, f0), full, (want, wmask),
+                            shape_tag, want_names, targets)
         ctx.traces_validated += 1
         ctx.note_case(cfg_key(vcfg), nontrivial=nontrivial(cfg, ms),
-                      sample=dict(route='v4', applycal=vcfg['applycal'], select=vcfg.get('select'), maps=m.get('maps'),
+                      sample=dict(route='v4', applycal=vcfg['applycal'], applied=got_names, select=vcfg.get('select'),
+                                  maps=m.get('maps'),
                                   cal_n_chans=cal['n_chans'], F=F, parts=n_parts, preselect=pre,
                                   nan_factors=int(np.isnan(ms['corr']).sum())))
         ctx.count('route=v4')
+        ctx.count('v4_' + req_tag)
+        ctx.count('v4_products_applied=%d' % len(got_names))
         ctx.count('v4_parts=%d' % n_parts)
+        ctx.count('v4_targets=%d' % len(set(targets)))
+        leaves = [leaf for key, evs in cal['products'].items() if key != 'K' for _, arr in evs
+                  for leaf in c13cal._flat(arr, 2)]
+        zero = any(leaf == [0.0, 0.0] for leaf in leaves)
+        inf = any(leaf == 'inf' for leaf in leaves) or any(
+            v == 'inf' for _, arr in cal['products'].get('K', []) for row in arr for v in row)
+        ctx.count('v4_zero_solution=%s' % zero)
+        ctx.count('v4_infinite_solution=%s' % inf)
+        ctx.count('v4_inexact_factors=%s' % bool(ms.get('tainted')))
         if n_parts > 1:
             times = [sorted(e for e, _ in cal['products'].get('B%d' % q, [])) for q in range(n_parts)]
             ctx.count('v4_parts_in_lock_step=%s' % all(t == times[0] for t in times))
@@ -962,7 +1398,8 @@ def run_v4(ctx, vcfg):
             v4.cleanup(x)
 
 
-def run_preselected(ctx, vcfg, x, inputs, bls, cal_freqs, freqs, stored, full, want_full, shape_tag):
+def run_preselected(ctx, vcfg, x, inputs, bls, cal_freqs, freqs, stored, full, want_full, shape_tag, want_names,
+                    targets):
     """Open the same store with preselect (channels and/or dumps) + applycal and compare (1) with the fully opened
     data set restricted to the same dumps and channels (the property: independent of the loaded subset) and
     (2) with the spec on the corrections the solutions call for on the loaded subset."""
@@ -973,26 +1410,36 @@ def run_preselected(ctx, vcfg, x, inputs, bls, cal_freqs, freqs, stored, full, w
     c0, c1 = pre.get('channels', [0, F])
     pk = {k: slice(*v) for k, v in pre.items()}
     what = '+'.join(sorted(pre))
+    applycal = vcfg['applycal'] if isinstance(vcfg['applycal'], str) else list(vcfg['applycal'])
     try:
-        dp = v4.reopen(x, dict(preselect=pk), dict(preselect=pk, applycal=list(vcfg['applycal'])))
+        dp = v4.reopen(x, dict(preselect=pk), dict(preselect=pk, applycal=applycal))
         got = dict(vis=dp.vis[:], weights=dp.weights[:], flags=dp.raw_flags[:])
         products = list(dp.applycal_products)
+        read = {name.split('.')[1]: _read_corrections(dp, name.split('.')[1], inputs, t1 - t0) for name in products}
     except Exception as e:
         ctx.disagree('route=v4pre;pre=%s;symptom=raises;exc=%s' % (what, type(e).__name__) + shape_tag, vcfg,
                      repr(e)[:300], 'a result', 'opening / reading a preselected data set with applycal raised')
         return
-    if products != list(vcfg['applycal']):
-        ctx.disagree('route=v4pre;pre=%s;symptom=products_dropped' % what, vcfg, products, vcfg['applycal'],
-                     'applycal products of the preselected data set differ from the requested ones')
-        return
+    if products != want_names:
+        ctx.disagree('route=v4pre;pre=%s;symptom=products_dropped' % what, vcfg, products, want_names,
+                     'applycal products of the preselected data set differ from those the request calls for')
     # corrections the solutions call for when only dumps [t0, t1) are loaded; they differ from those of the whole
     # data set only for time-interpolated gains whose solutions fall outside the loaded dumps (known finding C13-F3)
-    want = expected_corrections(vcfg, inputs, freqs[c0:c1], (t0, t1))
+    want, wmask = expected_corrections(vcfg, inputs, freqs[c0:c1], (t0, t1), want_names, targets[t0:t1], ctx)
+    wf, wfm = want_full
     gain_cause = False
     for ptype in want:
-        cut = [[(g if (len(g) != F or ptype == 'G') else g[c0:c1]) for g in per[t0:t1]] for per in want_full[ptype]]
-        if _same_corrections(want[ptype], cut) is not None:
-            gain_cause = gain_cause or ptype == 'G'
+        on_data = ptype not in GAIN_TYPES
+        cut = [[(g[c0:c1] if on_data else g) for g in per[t0:t1]] for per in wf[ptype]]
+        cutm = [[(g[c0:c1] if on_data else g) for g in per[t0:t1]] for per in wfm[ptype]]
+        same_mask = all(np.array_equal(a, b) for pa, pb in zip(wmask[ptype], cutm) for a, b in zip(pa, pb)) \
+            if [len(p) for p in wmask[ptype]] == [len(p) for p in cutm] else False
+        if _same_corrections(want[ptype], cut) is not None or not same_mask:
+            gain_cause = gain_cause or ptype in GAIN_TYPES
+        # a gain interpolated strictly between two different solutions: the fraction depends on where the solutions
+        # outside the loaded dumps collapse to (the same finding)
+        if ptype in GAIN_TYPES and 'dumps' in pre and any(mk.any() for per in wmask[ptype] + cutm for mk in per):
+            gain_cause = True
     for nm in ('vis', 'weights', 'flags'):
         a, b = got[nm], full[nm][t0:t1, c0:c1]
         eq = (a.shape == b.shape) and np.all(same_c(a, b) if nm == 'vis' else a == b)
@@ -1011,9 +1458,8 @@ def run_preselected(ctx, vcfg, x, inputs, bls, cal_freqs, freqs, stored, full, w
             if gain_cause:
                 break
     vis0, w0, f0 = [a[t0:t1, c0:c1] for a in stored]
-    pcfg = _direct_cfg(inputs, bls, freqs[c0:c1], _prods_from(want, vcfg['applycal'], cal_freqs),
-                       [[t1 - t0], [c1 - c0]], vis0, w0, f0)
-    mp = _model(ctx, pcfg)
+    pcfg0 = _direct_cfg(inputs, bls, freqs[c0:c1], [], [[t1 - t0], [c1 - c0]], vis0, w0, f0)
+    pcfg, mp = _spec_on(ctx, pcfg0, want, wmask, read, want_names, cal_freqs)
     compare(ctx, cfg_with(vcfg, pcfg), got, mp, 'v4pre', sides=('spec',), spec_name='spec_from_solutions',
             tag=';pre=%s' % what + shape_tag)
     ctx.traces_validated += 1
@@ -1139,9 +1585,12 @@ def run(ctx):
             ctx.disagree('route=direct;symptom=model_rejects_case', cfg, None, mo, 'wire format error', kind='tie')
             continue
         run_direct(ctx, cfg, mo)
-    for k in range(ctx.scale(40, 500)):
-        # a third of the cases with a multi-part B product, a third reopened with a channel (+ dumps) preselection
-        force = [dict(parts=True), dict(pre=['channels', 'both'][k // 3 % 2]), None][k % 3]
+    for k in range(ctx.scale(48, 600)):
+        # a sixth of the cases each: a multi-part B product; reopened with a channel (+ dumps) preselection; zero
+        # solutions in every product; a lenient request by bare types with a missing type before a present one;
+        # 'all' / 'default' / the stream with some product types missing; free
+        force = [dict(parts=True), dict(pre=['channels', 'both'][k // 6 % 2]), dict(zero=True),
+                 dict(request='types'), dict(request='group'), None][k % 6]
         run_v4(ctx, gen_v4(random.Random(ctx.rng.getrandbits(48)), ctx.tier, force))
     for _ in range(ctx.scale(12, 120)):
         run_v4(ctx, gen_invert(random.Random(ctx.rng.getrandbits(48)), ctx.tier))
